@@ -287,6 +287,49 @@ pub fn run(out: &mut Out, seed: u64, thorough: bool, scn: Option<&str>) {
             }
         }
     }
+    // a train whose first fragment was a re-use of A is still open while a packet with another label B goes out in
+    // full; the train ends; B is sent again (a re-use of B): fragments carry no label and must not touch either
+    // side's label memory, whether the train's own first fragment was a re-use or not
+    for (a, b) in [(LA6, LB6), (LA3, LA6), (LA6, Label::Broadcast), (LB3, LA3)] {
+        for first_reuse in [true, false] {
+            for use_ext in [false, true] {
+                let mgr = TableMgr { known: vec![] };
+                let mut rx = mk_rx(out, "labels", "reuse_train_then_other", 3, 64, 3, mgr, true);
+                let mut enc = Encapsulator::new(DefaultCrc {});
+                let exts = [ExtSpec { id: 0x0211, data: vec![1, 2] }];
+                if first_reuse {
+                    let t = ev_encap(out, &mut enc, &pool.small[0], 1, a, 0x0800, 64, None, None);
+                    feed_tx(out, &mut rx, &t);
+                }
+                let t = ev_encap(out, &mut enc, &pool.mid, 12, a, 0x0800, 30, if use_ext { Some(&exts) } else { None }, None);
+                feed_tx(out, &mut rx, &t);
+                let mut ctx = match &t.res {
+                    Some(Ok(EncapStatus::FragmentedPkt(_, c))) => Some(*c),
+                    _ => None,
+                };
+                let t = ev_encap(out, &mut enc, &pool.small[1], 1, b, 0x0800, 64, None, None);
+                feed_tx(out, &mut rx, &t);
+                let mut guard = 0;
+                while let Some(c) = ctx {
+                    guard += 1;
+                    if guard > 8 {
+                        break;
+                    }
+                    let t = ev_encap_frag(out, &enc, &pool.mid, &c, 30);
+                    ctx = match &t.res {
+                        Some(Ok(EncapStatus::FragmentedPkt(_, c2))) => Some(*c2),
+                        _ => None,
+                    };
+                    feed_tx(out, &mut rx, &t);
+                }
+                for lab in [b, b, a, a] {
+                    let t = ev_encap(out, &mut enc, &pool.small[2], 1, lab, 0x0800, 64, None, None);
+                    feed_tx(out, &mut rx, &t);
+                }
+                rx.ev_drain(out);
+            }
+        }
+    }
     // label A goes out; a call with another label B fails - for every reason a call can fail, through encap and
     // through encap_ext, including "too long only because of the label bytes"; then B, B, A are sent.  The
     // failed call emitted nothing: the first B must carry its label in full
